@@ -26,10 +26,20 @@ impl vstd::std_specs::convert::TryFromSpecImpl<Vec<u8>> for SerializedTlvStream 
 
 //@ fn tlv::ProtoBuf::get_tu64
 //@ returns r
+//@ implicit [C18,C06]
+//@ bind arr /let mut (\w+) = \[0u8; 8\];/
 //@ ensures#tu64 [C18,C10]
 //    lengths 0..=8 decode to their big-endian value, longer fields are rejected
       old(self).bview().len() > 8 ==> r is Err,
       old(self).bview().len() <= 8 ==> (r is Ok && r->Ok_0 as nat == be_val(old(self).bview()))
+//@ ghost after_stmt /^let mut \w+ = \[0u8; 8\];/
+      broadcast use vstd::array::axiom_spec_array_fill_for_copy_type;   // (not in scope by default inside a trait's default method)
+      let ghost arr0 = $arr@;
+      assert($arr == vstd::array::spec_array_fill_for_copy_type::<u8, 8>(0u8));
+      assert(forall|i: int| 0 <= i < 8 ==> arr0[i] == 0);
+//@ proof before_stmt /^Ok\(u64::from_be_bytes/
+      let s0 = old(self).bview();
+      crate::lemma_be_lead_zeros(arr0.take(8 - s0.len()), s0);
 //@ end
 
 //@ fn tlv::SerializedTlvStream::from_bytes
